@@ -152,6 +152,42 @@ enum V {
     CrlfMixed,
     /// -U --crlf with patterns that cannot match `\n` (searched line by line)
     MlCrlf,
+    /// -U -o: one record per match over the whole input
+    MlOnly,
+}
+
+/// -U -o -r: exactly the expansions, one record per match. `skip_empty` is the
+/// counterfactual switch of known finding
+/// `multiline-only-matching-skips-empty-expansions` (the multi-line
+/// only-matching printer walks the lines of the replaced text and prints the
+/// non-empty pieces of each expansion), `swallow` that of
+/// `replacement-ending-in-newline-swallows-terminator`.
+fn reference_ml_only(re: &regex::bytes::Regex, input: &[u8], swallow: bool, skip_empty: bool, expand: &dyn Fn(&regex::bytes::Captures, &mut Vec<u8>)) -> Vec<u8> {
+    let mut want = vec![];
+    let mut pos = 0;
+    while pos <= input.len() {
+        let Some(c) = re.captures_at(input, pos) else { break };
+        let g = c.get(0).unwrap();
+        pos = if g.end() == g.start() { g.end() + 1 } else { g.end() };
+        let mut e = vec![];
+        expand(&c, &mut e);
+        if skip_empty {
+            for piece in e.split_inclusive(|&b| b == b'\n') {
+                let body = piece.strip_suffix(b"\n").unwrap_or(piece);
+                if !body.is_empty() {
+                    want.extend(body);
+                    want.push(b'\n');
+                }
+            }
+        } else {
+            let ends_nl = e.last() == Some(&b'\n');
+            want.extend(&e);
+            if !(swallow && ends_nl) {
+                want.push(b'\n');
+            }
+        }
+    }
+    want
 }
 
 /// What the standard printer should print for `input` (see the rule text);
@@ -166,6 +202,9 @@ fn reference_output2(v: V, re: &regex::bytes::Regex, f: &PFlags, input: &[u8], s
         // reference
         let lines = split_lines(&input, b'\n');
         let mut want: Vec<u8> = vec![];
+        if v == V::MlOnly {
+            return reference_ml_only(re, input, swallow, false, expand);
+        }
         if v == V::MultiLine {
             // matches over the whole input; hit lines; replaced text of
             // each maximal run of hit lines, unmatched text intact
@@ -378,11 +417,11 @@ pub fn run(args: &Args) -> ! {
             idx.iter().map(|&k| al[k]).collect()
         })
         .collect();
-    let variants = [V::Plain, V::Only, V::Crlf, V::Column, V::InvertCtx, V::MultiLine, V::CrlfMixed, V::MlCrlf];
+    let variants = [V::Plain, V::Only, V::Crlf, V::Column, V::InvertCtx, V::MultiLine, V::CrlfMixed, V::MlCrlf, V::MlOnly];
     let mlpats: &[&str] = &["(a)\\n(b)?", "(a)|(\\n)", "(?s:(.)(.))", "(-)\\n"];
     let mut work = vec![];
     for v in variants.iter() {
-        let plist: Vec<&str> = if *v == V::MultiLine { mlpats.to_vec() } else { PATTERNS.to_vec() };
+        let plist: Vec<&str> = if *v == V::MultiLine || *v == V::MlOnly { mlpats.to_vec() } else { PATTERNS.to_vec() };
         for p in plist {
             for t in ptmpls.iter() {
                 work.push((*v, p, *t));
@@ -414,6 +453,11 @@ pub fn run(args: &Args) -> ! {
                 V::MultiLine => {
                     f.multiline = true;
                     so.line_number = false;
+                }
+                V::MlOnly => {
+                    f.multiline = true;
+                    so.line_number = false;
+                    so.only_matching = true;
                 }
                 V::Plain => {}
             }
@@ -461,6 +505,12 @@ pub fn run(args: &Args) -> ! {
                         Some("replacement-ending-in-newline-swallows-terminator")
                     } else if out.error.is_none() && (out.out == want_rw || out.out == want_rw_old || out.out == want_rw_sw) {
                         Some("replacement-rewrites-bare-lf-terminator-under-crlf")
+                    } else if out.error.is_none()
+                        && v == V::MlOnly
+                        && (out.out == reference_ml_only(&re, &input, false, true, &|c, d| c.expand(tmpl.as_bytes(), d))
+                            || out.out == reference_ml_only(&re, &input, false, true, &|c, d| expand_model(tmpl.as_bytes(), c, &re, true, d)))
+                    {
+                        Some("multiline-only-matching-skips-empty-expansions")
                     } else {
                         None
                     };
